@@ -513,6 +513,11 @@ emitFileName(EmitInfo finfo, FTypeNo ft)
 	FTypeNo			fto = ft;
 	int			i;
 
+	/* A name given with -Fmain= is that of the aldormain C file. */
+	if (emitInfoIsAXLmain(finfo) && ft == FTYPENO_C &&
+	    emitOutputFileName[FTYPENO_AXLMAINC])
+		return emitOutputFileName[FTYPENO_AXLMAINC];
+
 	/* A name given with -Fc=/-Fo= is that of the compiled file, not of aldormain. */
 	if (emitOutputFileName[ft] &&
 	    !(emitInfoIsAXLmain(finfo) && (ft == FTYPENO_C || ft == FTYPENO_OBJECT)))
